@@ -294,8 +294,9 @@ class Run:
             cov["states"] = max(cov["states"], 1)
             cov["transitions"] = max(cov["transitions"], 1)
             self.inconclusive.append("no states explored")
-        os.makedirs(os.path.join(ROOT, "evidence"), exist_ok=True)
-        json.dump(ev, open(os.path.join(ROOT, "evidence", self.pid + ".json"), "w"), indent=1, default=str)
+        evdir = os.environ.get("VERIF_EVIDENCE_DIR") or os.path.join(ROOT, "evidence")   # bin/mut redirects mutant runs
+        os.makedirs(evdir, exist_ok=True)
+        json.dump(ev, open(os.path.join(evdir, self.pid + ".json"), "w"), indent=1, default=str)
         for k in self.known_hits:
             self.log("KNOWN-FINDING: property=%s %s" % (self.pid, k["what"]))
         for v in self.violations:
